@@ -312,7 +312,7 @@ def _ob(tag, files_kinds, **kw):
     text = " || ".join(build_file(fk, i, kw.get("nplace", "before"), kw.get("kplace", "before")).replace("\n", " / ")
                        for i, fk in enumerate(files_kinds, start=1))
     kw.setdefault("max_size", 6)
-    return Ob(oid=tag, harness=H, params={"files": files_kinds, **kw}, vars=vars_, timeout=400, per_path=90, note=text,
+    return Ob(oid=tag, harness=H, params={"files": files_kinds, **kw}, vars=vars_, timeout=900, per_path=90, note=text,
               pre="0 <= B, B+len < 65536; N,K in 0..6; word-sized statements on even addresses")
 
 
